@@ -142,7 +142,9 @@ def ff_guards(eng, res, rule="R-FF-GUARDS"):
     ok = len(rets) == 1 and isinstance(rets[0].value, ast.Name) and raise_ok and rets[0].value.id == d_name
     res.ob(rule, g, "returns-complete-assignment", "the dictionary returned is the one whose size was compared with the number of atoms", g.node, ok)
     st = [s for s in own_nodes(g.node) if isinstance(s, ast.Assign) and isinstance(s.targets[0], ast.Subscript) and isinstance(s.targets[0].value, ast.Name) and raise_ok and s.targets[0].value.id == d_name]
-    ok = len(st) == 1 and src(st[0].value) == "self.get_ffparam(self.get_type(self._rule_dict[match_dict[atom_num]]))" and src(st[0].targets[0].slice) == "atom_num"
+    from ..pat import unify as _u
+
+    ok = len(st) == 1 and _u("$F[$A] = self.get_ffparam(self.get_type(self._rule_dict[$M[$A]]))", src(st[0])) is not None
     res.ob(rule, g, "one-parameter-set-per-atom", "each matched atom index receives exactly one parameter set: that of the type of its selected rule", st[0] if st else g.node, ok)
     # history-free: typing does not modify the assigner
     E = Effects(eng)
